@@ -160,26 +160,33 @@ func WriteCA(dir string, valid time.Duration) (certFile, keyFile string, cert *x
 	return
 }
 
+// SetBase sets the committed base value of a property, as a loaded configuration file would.
+func SetBase[T comparable](p *config.ConfigProp[T], v T) {
+	p.Stage(v)
+	p.CommitStaged()
+}
+
 // NewConfig builds a config from Opts.
 func NewConfig(o Opts, cacheDir string) *config.Config {
 	o = o.withDefaults()
 	cfg := config.NewDefault()
-	cfg.Proxy.UpstreamDefaultHttps.Overwrite(false)
-	cfg.Proxy.RetryOnRange416.Overwrite(o.Retry416)
-	cfg.Proxy.RetryOnInvalidRange.Overwrite(o.RetryInvalid)
-	cfg.Proxy.CachePolicy.IgnoreCacheControl.Overwrite(o.IgnoreCC)
-	cfg.Proxy.CachePolicy.ForceDefaultMaxAge.Overwrite(o.ForceDefault)
-	cfg.Proxy.CachePolicy.DefaultMaxAge.Overwrite(duration.Duration(o.DefaultMaxAge))
-	cfg.Cache.File.Dir.Overwrite(cacheDir)
+	// base values (not CLI-style overrides), so that later run-time updates take effect
+	SetBase(&cfg.Proxy.UpstreamDefaultHttps, false)
+	SetBase(&cfg.Proxy.RetryOnRange416, o.Retry416)
+	SetBase(&cfg.Proxy.RetryOnInvalidRange, o.RetryInvalid)
+	SetBase(&cfg.Proxy.CachePolicy.IgnoreCacheControl, o.IgnoreCC)
+	SetBase(&cfg.Proxy.CachePolicy.ForceDefaultMaxAge, o.ForceDefault)
+	SetBase(&cfg.Proxy.CachePolicy.DefaultMaxAge, duration.Duration(o.DefaultMaxAge))
+	SetBase(&cfg.Cache.File.Dir, cacheDir)
 	if o.Backend == "file" {
-		cfg.Cache.Type.Overwrite(config.CacheTypeFile)
+		SetBase(&cfg.Cache.Type, config.CacheTypeFile)
 	} else {
-		cfg.Cache.Type.Overwrite(config.CacheTypeMemory)
+		SetBase(&cfg.Cache.Type, config.CacheTypeMemory)
 	}
-	cfg.Cache.LockShards.Overwrite(o.Shards)
-	cfg.Cache.MaxCacheSize.Overwrite(bytesize.ByteSize(o.MaxSize))
-	cfg.Cache.CleanupInterval.Overwrite(duration.Duration(o.Cleanup))
-	cfg.Cache.Memory.MemoryBudgetPercent.Overwrite(o.MemBudget)
+	SetBase(&cfg.Cache.LockShards, o.Shards)
+	SetBase(&cfg.Cache.MaxCacheSize, bytesize.ByteSize(o.MaxSize))
+	SetBase(&cfg.Cache.CleanupInterval, duration.Duration(o.Cleanup))
+	SetBase(&cfg.Cache.Memory.MemoryBudgetPercent, o.MemBudget)
 	return cfg
 }
 
